@@ -434,14 +434,14 @@ def run(ctx):
     cov = Cov()
     known_mixed = any('mixed-local-types' in k for k in ctx.known)
     known_multi = any('several-payloads-per-flow' in k or 'parsec_create_reshape_promise' in k for k in ctx.known)
-    nprog = 60 if thorough else 12
+    nprog = 40 if thorough else 12
     if os.environ.get('VERIF_C18_NPROG'): nprog = int(os.environ['VERIF_C18_NPROG'])      # debugging aid (mutation trials): fewer programs
     modes = []
     for i in range(nprog):
         if thorough: m = 'mixed' if i % 10 == 3 else ('multirt' if i % 10 == 7 else 'plain')
         else: m = 'mixed' if i in ((3,) if known_mixed else (3, 9)) else ('multirt' if i in ((7,) if known_multi else (7, 11)) else 'plain')     # recorded findings: probed at low weight
         modes.append(os.environ.get('VERIF_C18_MODE') or m)              # debugging aid: force one generator mode
-    ncfg = 6 if thorough else 3
+    ncfg = 5 if thorough else 3
     S.post = lambda res, refs_, recs, finals, marks, r, cfg, feat, files, what: oracle(ctx, res, refs_, recs, finals, marks, r, cfg, feat, files, what, cov)
 
     def one(i):
@@ -468,6 +468,7 @@ def run(ctx):
                 out.append(cf)
             return out
         S2 = e1suite.Suite(ctx, S.oracles, profile='typed', flavours=('asan',)); S2.nk = P.nk; S2.post = S.post
+        S2.stall_s = 30 if modes[i] == 'mixed' else 120      # generous: on a loaded machine start-up alone can exceed 30 s; mixed programs may really stall (recorded finding)
         S2.feat_fn = lambda feat, progs, refs_, cfg, table: feat if feat_of(progs[0]) == 'ptg[typed]' else feat_of(progs[0])
         rs = S2.do_program(i, seed, [('asan', ())], cfgs, progs=([P], [ref]))
         with ctx._lock:
